@@ -127,19 +127,25 @@ Theorem C04_alu_A_imem_exact :
 Proof. split; [|split; [|split; [|split; [|split; [|split; [|split; [|exact alu_mem_opcodes_check]]]]]]]; [exact add_A_imem | exact sub_A_imem | exact adc_A_imem | exact sbc_A_imem | exact and_A_imem | exact or_A_imem | exact xor_A_imem]. Qed.
 Print Assumptions C04_alu_A_imem_exact.
 
-(* a counted instruction for EVERY count: MVL (m),(n) with no prefix and with each of the 15 prefixes, every m and n, every
-   I = 0 .. 65535 (induction over the iterations of the lifted label/if/goto loop, no bound on their number): the emulator
-   loop terminates within the fuel it grants, the result is exactly the documented block move - byte k of the source run goes
-   to byte k of the destination run, both runs wrapping inside internal memory, ascending, one byte at a time so overlapping
-   runs smear as documented - I ends at 0 and nothing else architectural changes (scratch registers outside the comparison).
+(* counted instructions for EVERY count: MVL (m),(n) and MVLD (m),(n) with no prefix and with each of the 15 prefixes, every m
+   and n, every I = 0 .. 65535 (induction over the iterations of the lifted label/if/goto loop, no bound on their number): the
+   emulator loop terminates within the fuel it grants, the result is exactly the documented block move - byte k of the source
+   run goes to byte k of the destination run, both runs wrapping inside internal memory, ascending for MVL and descending for
+   MVLD, one byte at a time so overlapping runs smear as documented - I ends at 0 and nothing else architectural changes
+   (scratch registers outside the comparison).
    Hypotheses: byte memory, 14 scratch registers, I is a 16-bit value (every register file written through Registers.set is) *)
 Theorem C04_mvl_imem_any_count :
-  (forall c, In c pre_choices -> forall n1 n2, (n1 < 256)%N -> (n2 < 256)%N -> forall addr s,
+  (forall opc, In opc [203; 207]%N ->
+   forall c, In c pre_choices -> forall n1 n2, (n1 < 256)%N -> (n2 < 256)%N -> forall addr s,
      mem_wf s -> TW s -> (py_get (rg s) gI < 65536)%N ->
-     exists s' t, exec_decoded (mk_pre c 203 [OIMem 1 n1; OIMem 1 n2] 3) (first_byte c 203) addr s = XOk s' /\
-                  spec_exec (mk_pre c 203 [OIMem 1 n1; OIMem 1 n2] 3) addr s = Some t /\ arch_eqT s' t) /\
-  (d_cls (entry_of 203), d_ops (entry_of 203)) = (I_MVL, [PIMem 1; PIMem 1]).
-Proof. split; [exact mvl_imem_imem | exact mvl_opcode_check]. Qed.
+     exists s' t, exec_decoded (mk_pre c opc [OIMem 1 n1; OIMem 1 n2] 3) (first_byte c opc) addr s = XOk s' /\
+                  spec_exec (mk_pre c opc [OIMem 1 n1; OIMem 1 n2] 3) addr s = Some t /\ arch_eqT s' t) /\
+  (d_cls (entry_of 203), d_ops (entry_of 203)) = (I_MVL, [PIMem 1; PIMem 1]) /\
+  (d_cls (entry_of 207), d_ops (entry_of 207)) = (I_MVLD, [PIMem 1; PIMem 1]).
+Proof.
+  split; [|exact mvl_opcode_check].
+  intros opc [<- | [<- | []]]; [exact mvl_imem_imem | exact mvld_imem_imem].
+Qed.
 Print Assumptions C04_mvl_imem_any_count.
 
 Example C04_mvl_hypotheses_satisfiable :
